@@ -1,4 +1,6 @@
 import Sentinel.LeapArray
+import Sentinel.Hotspot
+import Sentinel.Breaker
 /-!
 Sequential model of an entry's life through the global slot chain (DESIGN §5.3):
 `EntryBuilder::build` = prepare (node) → checks system(1000) flow(2000) isolation(3000) hotspot(4000)
@@ -52,6 +54,38 @@ end Node
 inductive FlowStat where
   | global (rd : Reader)                                   -- reuse_global = true
   | priv (g : Geo) (ring : BRing) (rd : Reader) (hist : List TEv)   -- private BucketLeapArray + its reader
+  | nop                                                    -- NOP_STAT: rule needs no statistic
+  deriving Repr, Inhabited
+
+/-- `WarmUpCalculator` -/
+structure WarmUp where
+  coldFactor : Nat
+  warning : Nat
+  maxToken : Nat
+  slope : F64
+  stored : Nat := 0
+  lastFilled : Nat := 0
+  deriving Repr, Inhabited
+
+/-- `WarmUpCalculator::new` -/
+def WarmUp.new (thr : F64) (periodSec coldFactor : Nat) : WarmUp :=
+  let cf := if coldFactor ≤ 1 then 3 else coldFactor
+  let period := F64.ofNat periodSec
+  let cfm := F64.ofNat (cf - 1)
+  let cfp := F64.ofNat (cf + 1)
+  let warning := (F64.div (F64.mul period thr) cfm).toNatFloor
+  let maxToken := warning + 2 * (F64.div (F64.mul period thr) cfp).toNatFloor
+  let slope := F64.div (F64.div cfm thr) (F64.ofNat (maxToken - warning))
+  { coldFactor := cf, warning := warning, maxToken := maxToken, slope := slope }
+
+inductive FlowCalc where
+  | direct
+  | warmUp (s : WarmUp)
+  deriving Repr, Inhabited
+
+inductive FlowChecker where
+  | reject
+  | throttling (lastPassedNs : Nat)
   deriving Repr, Inhabited
 
 /-- `generate_stat_for` under the default configuration (global 20×500 ms, default metric 2×500 ms) -/
@@ -67,6 +101,9 @@ structure FlowCtrl where
   thr : F64
   ivl : Nat
   stat : FlowStat
+  calcr : FlowCalc := .direct
+  checker : FlowChecker := .reject
+  maxQueueMs : Nat := 0
   deriving Repr, Inhabited
 
 /-- `read_only_metric().sum(Pass)` of a controller -/
@@ -74,6 +111,7 @@ def FlowCtrl.curCount (c : FlowCtrl) (node : Node) (nowMs : Nat) : Nat :=
   match c.stat with
   | .global rd => node.sum rd nowMs .pass
   | .priv g ring rd _ => ring.sumWithTime g rd nowMs .pass
+  | .nop => 0
 
 /-- `RejectChecker::do_check`: blocked iff `cur as f64 + batch as f64 > threshold`; the left side is the exact
 integer `cur + batch` (modelling assumption: counts stay below 2^53, where `u64 → f64` is exact) -/
@@ -94,6 +132,105 @@ def FlowCtrl.recordPass (c : FlowCtrl) (nowMs batch : Nat) : FlowCtrl :=
     match ring.record g nowMs (.add .pass batch) with
     | some r => { c with stat := .priv g r rd ((nowMs, .add .pass batch) :: hist) }
     | none => c
+  | .nop => c
+
+/-! ### flow control, general controllers: calculators (direct, warm-up) × checkers (reject, throttling) -/
+
+/-- `qps_previous(Pass)` of the controller's read-only metric -/
+def FlowCtrl.qpsPrevious (c : FlowCtrl) (node : Node) (nowMs : Nat) : F64 :=
+  match c.stat with
+  | .global rd => node.ring.qpsPrevious globalGeo rd nowMs .pass
+  | .priv g ring rd _ => ring.qpsPrevious g rd nowMs .pass
+  | .nop => F64.zero
+
+/-- `WarmUpCalculator::sync_token` + `cool_down_tokens` -/
+def WarmUp.sync (s : WarmUp) (thr : F64) (nowMs : Nat) (passQps : F64) : WarmUp :=
+  let curr := nowMs - nowMs % 1000
+  if curr ≤ s.lastFilled then s else
+  let old := s.stored
+  let refill := decide (old < s.warning) || F64.lt passQps (F64.floor (F64.div thr (F64.ofNat s.coldFactor)))
+  let newV := if refill then old + (F64.div (F64.mul (F64.ofNat (curr - s.lastFilled)) thr) (F64.ofNat 1000)).toNatFloor else old
+  let newV := min newV s.maxToken
+  let drain := passQps.toNatFloor
+  { s with stored := if newV < drain then 0 else newV - drain, lastFilled := curr }
+
+/-- `calculate_allowed_threshold` of the warm-up calculator, after `sync` -/
+def WarmUp.allowed (s : WarmUp) (thr : F64) : F64 :=
+  if s.stored ≥ s.warning then
+    F64.nextAfter (F64.div (F64.ofNat 1) (F64.add (F64.mul (F64.ofNat (s.stored - s.warning)) s.slope) (F64.div (F64.ofNat 1) thr)))
+  else thr
+
+/-- the calculator step: returns the (possibly updated) controller and the allowed threshold -/
+def FlowCtrl.allowed (c : FlowCtrl) (node : Node) (nowMs : Nat) : FlowCtrl × F64 :=
+  match c.calcr with
+  | .direct => (c, c.thr)
+  | .warmUp s =>
+    let s' := s.sync c.thr nowMs (c.qpsPrevious node nowMs)
+    ({ c with calcr := .warmUp s' }, s'.allowed c.thr)
+
+/-- result of one controller's `perform_checking` -/
+inductive FlowRes where
+  | pass
+  | blocked (rule : String) (snap : String)
+  | wait (ns : Nat)
+  deriving Repr, DecidableEq, Inhabited
+
+def f64SnapStr (x : F64) : String :=
+  let s := x.toStr
+  if s.endsWith "/1" then (s.dropEnd 2).toString else s
+
+/-- flow `ThrottlingChecker::do_check` with allowed threshold `thr`; times in nanoseconds -/
+def throttleCheck (id : String) (thr : F64) (statIntervalNs maxQueueNs lastPassed nowNs batch : Nat) : Nat × FlowRes :=
+  if batch = 0 then (lastPassed, .pass)
+  else if !F64.lt F64.zero thr then (lastPassed, .blocked id (f64SnapStr thr))
+  else if F64.ltNat thr batch then (lastPassed, .blocked "-" "-")
+  else
+    let intervalNs := (F64.mul (F64.div (F64.ofNat batch) thr) (F64.ofNat statIntervalNs)).toNatFloor
+    let expected := lastPassed + intervalNs
+    if expected ≤ nowNs then (nowNs, .pass)
+    else
+      let est := expected - nowNs
+      if est > maxQueueNs then (lastPassed, .blocked id (toString est))
+      else (expected, .wait est)
+
+/-- `Controller::perform_checking`: calculator, then checker -/
+def FlowCtrl.step (c : FlowCtrl) (node : Node) (nowNs batch : Nat) : FlowCtrl × FlowRes :=
+  let nowMs := nowNs / 1000000
+  let (c1, allowed) := c.allowed node nowMs
+  match c1.checker with
+  | .reject =>
+    let cur := c1.curCount node nowMs
+    if F64.ltNat allowed (cur + batch) then (c1, .blocked c1.id (toString cur)) else (c1, .pass)
+  | .throttling last =>
+    let ivlNs := (if c1.ivl = 0 then 1000 else c1.ivl) * 1000000
+    let (last', r) := throttleCheck c1.id allowed ivlNs (c1.maxQueueMs * 1000000) last nowNs batch
+    ({ c1 with checker := .throttling last' }, r)
+
+/-- the flow slot: controllers in order; a `wait` is slept at once (the clock the next controller sees is later);
+the first blocking controller ends the slot. Returns (controllers', clock', block) -/
+def flowSlot : List FlowCtrl → Node → Nat → Nat → List FlowCtrl × Nat × Option (String × String)
+  | [], _, nowNs, _ => ([], nowNs, none)
+  | c :: rest, node, nowNs, batch =>
+    match c.step node nowNs batch with
+    | (c', .pass) => let (rest', t, b) := flowSlot rest node nowNs batch; (c' :: rest', t, b)
+    | (c', .wait ns) => let (rest', t, b) := flowSlot rest node (nowNs + ns) batch; (c' :: rest', t, b)
+    | (c', .blocked rule snap) => (c' :: rest, nowNs, some (rule, snap))
+
+/-! ### hotspot slot -/
+
+/-- the hotspot slot over one resource's controllers: like the flow slot; a `wait w` is slept as
+`hsSleepNs w` nanoseconds -/
+def hsSlot (sleepNs : Nat → Nat) : List HsCtrl → Nat → Option (List String) → Option (List (String × String)) → Nat →
+    List HsCtrl × Nat × Option (String × String)
+  | [], nowNs, _, _, _ => ([], nowNs, none)
+  | c :: rest, nowNs, args, atts, batch =>
+    match extractArgs c.rule args atts with
+    | none => let (rest', t, b) := hsSlot sleepNs rest nowNs args atts batch; (c :: rest', t, b)
+    | some arg =>
+      match c.check (nowNs / 1000000) arg batch with
+      | (c', .pass) => let (rest', t, b) := hsSlot sleepNs rest nowNs args atts batch; (c' :: rest', t, b)
+      | (c', .wait w) => let (rest', t, b) := hsSlot sleepNs rest (nowNs + sleepNs w) args atts batch; (c' :: rest', t, b)
+      | (c', .blocked snap _) => (c' :: rest, nowNs, some (c.rule.id, toString snap))
 
 /-! ### isolation -/
 
@@ -162,6 +299,9 @@ structure Entry where
   batch : Nat
   inbound : Bool
   startMs : Nat
+  args : Option (List String) := none
+  atts : Option (List (String × String)) := none
+  hooks : List String := []          -- breakers that registered a rollback exit hook on this entry
   deriving Repr, Inhabited
 
 /-- the outcome of `EntryBuilder::build` -/
@@ -179,6 +319,10 @@ structure World where
   sys : List SysRule := []
   load : F64 := F64.zero
   cpu : F64 := F64.zero
+  hs : List (String × List HsCtrl) := []
+  br : List (String × List Breaker) := []
+  log : List BEvent := []              -- listener notifications, oldest first
+  hsSleepNs : Nat → Nat := hsWaitToNs  -- unit conversion applied by the hotspot slot to a throttling wait
   entries : List (Nat × Entry) := []
   deriving Inhabited
 
@@ -192,6 +336,8 @@ def update {α : Type} (l : List (String × α)) (k : String) (v : α) : List (S
 def node (w : World) (res : String) : Node := (lookup w.nodes res).getD {}
 def ctrls (w : World) (res : String) : List FlowCtrl := (lookup w.flow res).getD []
 def isoRules (w : World) (res : String) : List IsoRule := (lookup w.iso res).getD []
+def hsCtrls (w : World) (res : String) : List HsCtrl := (lookup w.hs res).getD []
+def breakers (w : World) (res : String) : List Breaker := (lookup w.br res).getD []
 
 /-- `ResourceNode::max_avg(Complete)` = `max_of_single_bucket as f64 * sample_count as f64 / interval_ms as f64 * 1000.0` -/
 def maxAvgComplete (n : Node) (nowMs : Nat) : F64 :=
@@ -206,73 +352,152 @@ def sysObs (w : World) : SysObs :=
     maxComplete := maxAvgComplete n now, minRt := F64.ofNat (n.ring.minRt globalGeo defaultReader now) }
 
 /-- rendering of an f64 snapshot: integers without denominator -/
-def snapStr (x : F64) : String :=
-  let s := x.toStr
-  if s.endsWith "/1" then (s.dropEnd 2).toString else s
+def snapStr (x : F64) : String := f64SnapStr x
 
 /-- block type name the isolation slot reports -/
 def isoBlockType : String := "Isolation"
 
-/-- the rule-check slots in slot order (system, flow, isolation, …); every slot runs; the last blocked result wins -/
-def verdict (w : World) (res : String) (batch : Nat) (inbound : Bool) : BuildRes :=
-  let now := w.nowMs
+/-- what the rule-check slots produce: updated controller states, the clock after any throttling sleeps,
+listener notifications, rollback hooks registered on the entry, and the verdict -/
+structure CheckOut where
+  flow : List FlowCtrl
+  hs : List HsCtrl
+  br : List Breaker
+  nowNs : Nat
+  events : List BEvent
+  hooks : List String
+  res : BuildRes
+
+/-- the rule-check slots in slot order: system(1000) flow(2000) isolation(3000) hotspot(4000) breaker(5000);
+every slot runs; the last blocked result wins -/
+def runChecks (w : World) (res : String) (batch : Nat) (inbound : Bool)
+    (args : Option (List String)) (atts : Option (List (String × String))) : CheckOut :=
   let nd := w.node res
   let r0 : BuildRes := match sysCheck w.sys inbound w.sysObs with
     | some (id, snap) => BuildRes.blocked "SystemFlow" id (snapStr snap)
     | none => .pass
-  let r1 := match flowCheck (w.ctrls res) nd now batch with
-    | some (id, snap) => BuildRes.blocked "Flow" id (toString snap)
+  let (flow', t1, fb) := flowSlot (w.ctrls res) nd w.nowNs batch
+  let r1 := match fb with
+    | some (id, snap) => BuildRes.blocked "Flow" id snap
     | none => r0
   let r2 := match isoCheck (w.isoRules res) nd batch with
     | some (id, snap) => BuildRes.blocked isoBlockType id (toString snap)
     | none => r1
-  r2
+  let (hs', t2, hb) := hsSlot w.hsSleepNs (w.hsCtrls res) t1 args atts batch
+  let r3 := match hb with
+    | some (id, snap) => BuildRes.blocked "HotSpotParamFlow" id snap
+    | none => r2
+  let (br', bblocked, evs, hooks) := brSlot (w.breakers res) (t2 / 1000000)
+  let r4 := if bblocked then BuildRes.blocked "CircuitBreaking" "-" "-" else r3
+  { flow := flow', hs := hs', br := br', nowNs := t2, events := evs, hooks := hooks, res := r4 }
+
+/-- run the rollback exit hooks of an entry (`blocked` = the entry's verdict) -/
+def runHooks (brs : List Breaker) (hooks : List String) (blocked : Bool) : List Breaker × List BEvent :=
+  brs.foldl (fun (acc : List Breaker × List BEvent) b =>
+      if hooks.contains b.rule.id then
+        let (b', ev) := b.rollback blocked
+        (acc.1 ++ [b'], acc.2 ++ ev)
+      else (acc.1 ++ [b], acc.2)) ([], [])
+
+def setIfAny {α : Type} (l : List (String × List α)) (res : String) (old new : List α) : List (String × List α) :=
+  if old.isEmpty then l else update l res new
 
 /-- `EntryBuilder::build` on the global slot chain -/
-def build (w : World) (eid : Nat) (res : String) (batch : Nat) (inbound : Bool) : World × BuildRes :=
-  let now := w.nowMs
+def build (w : World) (eid : Nat) (res : String) (batch : Nat) (inbound : Bool)
+    (args : Option (List String) := none) (atts : Option (List (String × String)) := none) : World × BuildRes :=
+  let startMs := w.nowMs                     -- EntryContext::new()
   -- prepare: get_or_create_resource_node
   let nd := w.node res
-  match w.verdict res batch inbound with
+  let out := w.runChecks res batch inbound args atts
+  let now := out.nowNs / 1000000
+  let w1 := { w with nowNs := out.nowNs, flow := setIfAny w.flow res (w.ctrls res) out.flow,
+                     hs := setIfAny w.hs res (w.hsCtrls res) out.hs,
+                     br := setIfAny w.br res (w.breakers res) out.br, log := w.log ++ out.events }
+  match out.res with
   | .pass =>
     let nd' := nd.recordPass now batch
     let inb' := if inbound then w.inbound.recordPass now batch else w.inbound
-    let ctrls' := (w.ctrls res).map (fun c => c.recordPass now batch)
-    ({ w with nodes := update w.nodes res nd', inbound := inb',
-              flow := if (w.ctrls res).isEmpty then w.flow else update w.flow res ctrls',
-              entries := (eid, ⟨res, batch, inbound, now⟩) :: w.entries }, .pass)
+    let ctrls' := out.flow.map (fun c => c.recordPass now batch)
+    let hs' := out.hs.map (fun c => c.concAdjust (extractArgs c.rule args atts) true)
+    ({ w1 with nodes := update w.nodes res nd', inbound := inb',
+               flow := setIfAny w.flow res (w.ctrls res) ctrls',
+               hs := setIfAny w.hs res (w.hsCtrls res) hs',
+               entries := (eid, { res := res, batch := batch, inbound := inbound, startMs := startMs,
+                                  args := args, atts := atts, hooks := out.hooks }) :: w.entries }, .pass)
   | blocked =>
     let nd' := nd.recordBlock now batch
     let inb' := if inbound then w.inbound.recordBlock now batch else w.inbound
-    ({ w with nodes := update w.nodes res nd', inbound := inb' }, blocked)
+    -- a blocked entry is exited internally: exit handlers run, no completion
+    let (br', evs) := runHooks out.br out.hooks true
+    ({ w1 with nodes := update w.nodes res nd', inbound := inb',
+               br := setIfAny w.br res (w.breakers res) br', log := w.log ++ out.events ++ evs }, blocked)
 
-/-- `entry.exit()` of a passed entry -/
-def exit (w : World) (eid : Nat) : Option World :=
+/-- `entry.exit()` of a passed entry; `err` = an error was attached with `set_err` before -/
+def exit (w : World) (eid : Nat) (err : Bool := false) : Option World :=
   match w.entries.find? (fun p => p.1 == eid) with
   | none => none
   | some (_, e) =>
     let now := w.nowMs
+    -- exit handlers first (the entry is not blocked: the rollback hooks do nothing)
+    let (br0, ev0) := runHooks (w.breakers e.res) e.hooks false
     let rt := now - e.startMs
     let nd' := (w.node e.res).recordComplete now e.batch rt
     let inb' := if e.inbound then w.inbound.recordComplete now e.batch rt else w.inbound
+    let hs' := (w.hsCtrls e.res).map (fun c => c.concAdjust (extractArgs c.rule e.args e.atts) false)
+    let (br', evs) := br0.foldl (fun (acc : List Breaker × List BEvent) b =>
+        let (b', ev) := b.onComplete now rt err
+        (acc.1 ++ [b'], acc.2 ++ ev)) ([], [])
     some { w with nodes := update w.nodes e.res nd', inbound := inb',
+                  hs := setIfAny w.hs e.res (w.hsCtrls e.res) hs',
+                  br := setIfAny w.br e.res (w.breakers e.res) br',
+                  log := w.log ++ ev0 ++ evs,
                   entries := w.entries.filter (fun p => p.1 != eid) }
 
-/-- `flow::load_rules_of_resource` restricted to what C01 needs: controllers for direct/reject rules; a rule equal
-to an old one keeps its controller (and statistics), otherwise a fresh one is built. `order` is the
-order in which the implementation holds them (HashSet iteration), adopted by the driver. -/
-def loadFlow (w : World) (res : String) (rules : List (String × F64 × Nat)) : World :=
+/-- a flow rule as given to `loadFlow`: direct/reject by default -/
+structure FlowSpec where
+  id : String
+  thr : F64
+  ivl : Nat
+  warmUp : Bool := false
+  throttling : Bool := false
+  period : Nat := 0
+  coldFactor : Nat := 0
+  maxQueueMs : Nat := 0
+  deriving Repr, Inhabited
+
+def FlowSpec.needStat (r : FlowSpec) : Bool := r.warmUp || !r.throttling
+
+def FlowSpec.sameAs (r : FlowSpec) (c : FlowCtrl) : Bool :=
+  c.thr == r.thr && c.ivl == r.ivl && c.maxQueueMs == r.maxQueueMs &&
+  (match c.calcr with | .direct => !r.warmUp | .warmUp s => r.warmUp && s.coldFactor == (if r.coldFactor ≤ 1 then 3 else r.coldFactor)) &&
+  (match c.checker with | .reject => !r.throttling | .throttling _ => r.throttling)
+
+/-- `flow::load_rules_of_resource`: a rule equal to an old one keeps its controller (and statistics), otherwise a
+fresh one is built. The list is in the order in which the implementation holds the controllers. -/
+def loadFlow (w : World) (res : String) (rules : List FlowSpec) : World :=
   let old := w.ctrls res
-  let mk := fun (r : String × F64 × Nat) =>
-    match old.find? (fun c => c.thr == r.2.1 && c.ivl == r.2.2) with
-    | some c => { c with id := r.1 }
-    | none => { id := r.1, thr := r.2.1, ivl := r.2.2, stat := flowStatFor r.2.2 }
+  let mk := fun (r : FlowSpec) =>
+    match old.find? (fun c => r.sameAs c) with
+    | some c => { c with id := r.id }
+    | none => { id := r.id, thr := r.thr, ivl := r.ivl,
+                stat := if r.needStat then flowStatFor r.ivl else .nop,
+                calcr := if r.warmUp then .warmUp (WarmUp.new r.thr r.period r.coldFactor) else .direct,
+                checker := if r.throttling then .throttling 0 else .reject,
+                maxQueueMs := r.maxQueueMs }
   -- building controllers touches the resource node (generate_stat_for → get_or_create_resource_node)
-  let w := { w with nodes := if rules.isEmpty then w.nodes else update w.nodes res (w.node res) }
+  let w := { w with nodes := if rules.any (·.needStat) then update w.nodes res (w.node res) else w.nodes }
   { w with flow := update w.flow res (rules.map mk) }
 
 def loadIso (w : World) (res : String) (rules : List IsoRule) : World :=
   { w with iso := update w.iso res rules }
+
+/-- `hotspot::load_rules_of_resource` with fresh controllers (reuse across reloads is C11's subject) -/
+def loadHs (w : World) (res : String) (rules : List HsRule) : World :=
+  { w with hs := update w.hs res (rules.map HsCtrl.new) }
+
+/-- `circuitbreaker::load_rules_of_resource` with fresh breakers -/
+def loadBr (w : World) (res : String) (rules : List BRule) : World :=
+  { w with br := update w.br res (rules.map Breaker.new) }
 
 end World
 end Sentinel
